@@ -352,6 +352,10 @@ fn assemble(contents: &StaticSource) -> Result<Air> {
     let parser = lace::AsmParser::new(contents.src())?;
     let mut air = parser.parse()?;
     air.backpatch()?;
+    // Label references are only range-checked when a statement is emitted
+    for stmt in &air {
+        stmt.emit()?;
+    }
     Ok(air)
 }
 
